@@ -77,12 +77,12 @@ theorem evalTxn_checked {P : Params} {x : Ctx} {l l' : Layer} {g : List Txn} {t 
           exact checkAll_ok _ hc a ha he
 
 theorem groupLoop_checked {P : Params} {x : Ctx} {g : List Txn} {g0 : Nat} :
-    ∀ (ts : List Txn) (i : Nat) (l l' : Layer), Checked P x l → groupLoop P x g g0 i l ts = .ok l' → Checked P x l' := by
+    ∀ (ts : List Txn) (used i : Nat) (l l' : Layer), Checked P x l → groupLoop P x g g0 used i l ts = .ok l' → Checked P x l' := by
   intro ts
   induction ts with
-  | nil => intro i l l' hl h; cases h; exact hl
+  | nil => intro used i l l' hl h; cases h; exact hl
   | cons t r ih =>
-    intro i l l' _ h
+    intro used i l l' _ h
     unfold groupLoop at h
     split at h
     · cases h
@@ -91,10 +91,12 @@ theorem groupLoop_checked {P : Params} {x : Ctx} {g : List Txn} {g0 : Nat} :
       · cases h
       · split at h
         · cases h
-        · exact ih _ _ _ (evalTxn_checked h1) h
+        · split at h
+          · cases h
+          · exact ih _ _ _ _ (evalTxn_checked h1) h
 
-theorem evalGroupChild_checked {P : Params} {x : Ctx} {top child : Layer} {g : List Txn}
-    (h : evalGroupChild P x top g = .ok child) : Checked P (childCtx x top) child := by
+theorem evalGroupChild_checked {P : Params} {x : Ctx} {top child : Layer} {used : Nat} {g : List Txn}
+    (h : evalGroupChild P x top used g = .ok child) : Checked P (childCtx x top) child := by
   unfold evalGroupChild at h
   split at h
   · cases h
@@ -108,7 +110,7 @@ theorem evalGroupChild_checked {P : Params} {x : Ctx} {top child : Layer} {g : L
         · split at h
           · cases h
           · cases h
-            exact groupLoop_checked _ _ _ _ (fun a ha => by simp [modified] at ha) hc
+            exact groupLoop_checked _ _ _ _ _ (fun a ha => by simp [modified] at ha) hc
 
 /-- an account that is not in the child's deltas is read from the parent -/
 theorem acctOf_not_modified (x : Ctx) (top child : Layer) (a : Addr) (h : a ∉ modified child) :
